@@ -83,6 +83,10 @@ func (e *Engine) execCall(fc *fnCtx, b *ssa.BasicBlock, st *State, c *ssa.CallCo
 			return v
 		}
 	}
+	if pureRepoPrefix(name) {
+		e.w.Trusted["logging has no effect on program state: "+repoMod+"/log"] = true
+		return e.freshVal("log", resT)
+	}
 	if e.canInline(fc, callee) {
 		return e.inlineCall(fc, st, callee, args, free, resT)
 	}
@@ -339,7 +343,7 @@ func (e *Engine) execAppend(fc *fnCtx, b *ssa.BasicBlock, st *State, c *ssa.Call
 		arr := sel(H, ref)
 		tarr := sel(H, "(s_ref "+t.T+")")
 		for j := int64(0); j < k; j++ {
-			arr = store(arr, fmt.Sprintf("(+ %s %s %d)", off, ln, j), sel(tarr, fmt.Sprintf("(+ (s_off %s) %d)", t.T, j)))
+			arr = store(arr, fmt.Sprintf("(ix %s (+ %s %d))", off, ln, j), sel(tarr, fmt.Sprintf("(ix (s_off %s) %d)", t.T, j)))
 		}
 		e.setHeapIn(st, hn, hs, store(H, nref, arr))
 		e.logStore(hn, nref)
@@ -364,10 +368,10 @@ func (e *Engine) execAppend(fc *fnCtx, b *ssa.BasicBlock, st *State, c *ssa.Call
 	if isStr {
 		elemAt = "(str.to_code (str.at " + t.T + " j))"
 	} else {
-		elemAt = sel(sel(H, "(s_ref "+t.T+")"), "(+ (s_off "+t.T+") j)")
+		elemAt = sel(sel(H, "(s_ref "+t.T+")"), "(ix (s_off "+t.T+") j)")
 	}
-	e.sc.assert(implies(st.Reach, "(forall ((j Int)) (! (=> (and (<= 0 j) (< j "+ln+")) (= (select "+narr+" (+ "+off+" j)) (select "+oarr+" (+ "+off+" j)))) :pattern ((select "+narr+" (+ "+off+" j)))))"))
-	e.sc.assert(implies(st.Reach, "(forall ((j Int)) (! (=> (and (<= 0 j) (< j "+tlen+")) (= (select "+narr+" (+ "+off+" "+ln+" j)) "+elemAt+")) :pattern ((select "+narr+" (+ "+off+" "+ln+" j)))))"))
+	e.sc.assert(implies(st.Reach, "(forall ((j Int)) (! (=> (and (<= 0 j) (< j "+ln+")) (= (select "+narr+" (ix "+off+" j)) (select "+oarr+" (ix "+off+" j)))) :pattern ((select "+narr+" (ix "+off+" j)))))"))
+	e.sc.assert(implies(st.Reach, "(forall ((j Int)) (! (=> (and (<= 0 j) (< j "+tlen+")) (= (select "+narr+" (ix "+off+" (+ "+ln+" j))) "+elemAt+")) :pattern ((select "+narr+" (ix "+off+" (+ "+ln+" j))))))"))
 	e.setHeapIn(st, hn, hs, store(H, nref, narr))
 	e.logStore(hn, nref)
 	e.note("append with non-constant operand: other elements of a shared backing array are not preserved (havoc)")
